@@ -66,7 +66,7 @@ theorem PredK_call_noassert (p : PredK) (x : PyVal) : p.call x ≠ .error .asser
   case minItems n => exact lenCmp_noassert _ _
   case maxItems n => exact lenCmp_noassert _ _
   case exactItemCount n => exact lenCmp_noassert _ _
-  case uniqueItems => split <;> simp
+  case uniqueItems => split <;> (try split) <;> (try split) <;> simp
   case minKeys n => exact lenCmp_noassert _ _
   case maxKeys n => exact lenCmp_noassert _ _
   case user f => simp
